@@ -116,10 +116,17 @@ type bucketData struct {
 	lastModified time.Time
 	versionID    gofakes3.VersionID
 	deleteMarker bool
-	body         []byte
-	hash         []byte
-	etag         string
-	metadata     map[string]string
+
+	// nullVersion is set for data stored while versioning was not enabled. An
+	// object has at most one of these (S3 calls it the 'null' version); it is
+	// the only version that uploads and deletes made while versioning is
+	// suspended may replace.
+	nullVersion bool
+
+	body     []byte
+	hash     []byte
+	etag     string
+	metadata map[string]string
 }
 
 func (bi *bucketData) toObject(rangeRequest *gofakes3.ObjectRangeRequest, withBody bool) (obj *gofakes3.Object, err error) {
@@ -207,6 +214,7 @@ func (b *bucket) objectVersion(objectName string, versionID gofakes3.VersionID) 
 func (b *bucket) put(name string, item *bucketData) {
 	// Always generate a version for convenience; we can just mask it on return.
 	item.versionID = b.versionGen()
+	item.nullVersion = b.versioning != gofakes3.VersioningEnabled
 
 	object := b.object(name)
 	if object == nil {
@@ -214,18 +222,50 @@ func (b *bucket) put(name string, item *bucketData) {
 		b.objects.Set(name, object)
 	}
 
-	if b.versioning == gofakes3.VersioningEnabled {
-		if object.data != nil {
-			if object.versions == nil {
-				object.versions = skiplist.NewCustomMap(func(l, r interface{}) bool {
-					return l.(gofakes3.VersionID) < r.(gofakes3.VersionID)
-				})
-			}
-			object.versions.Set(object.data.versionID, object.data)
+	switch b.versioning {
+	case gofakes3.VersioningEnabled:
+		object.archiveData()
+
+	case gofakes3.VersioningSuspended:
+		// The new item replaces the null version only; versions created
+		// while versioning was enabled must be kept:
+		if object.data != nil && !object.data.nullVersion {
+			object.archiveData()
 		}
+		object.dropNullVersion()
 	}
 
 	object.data = item
+}
+
+// archiveData moves the current version into the list of older versions.
+func (b *bucketObject) archiveData() {
+	if b.data == nil {
+		return
+	}
+	if b.versions == nil {
+		b.versions = skiplist.NewCustomMap(func(l, r interface{}) bool {
+			return l.(gofakes3.VersionID) < r.(gofakes3.VersionID)
+		})
+	}
+	b.versions.Set(b.data.versionID, b.data)
+	b.data = nil
+}
+
+// dropNullVersion removes the null version from the list of older versions.
+func (b *bucketObject) dropNullVersion() {
+	if b.versions == nil {
+		return
+	}
+	var drop []gofakes3.VersionID
+	for it := b.versions.Iterator(); it.Next(); {
+		if it.Value().(*bucketData).nullVersion {
+			drop = append(drop, it.Key().(gofakes3.VersionID))
+		}
+	}
+	for _, id := range drop {
+		b.versions.Delete(id)
+	}
 }
 
 // promoteNewest makes the most recently created of the older versions the
@@ -248,17 +288,24 @@ func (b *bucket) rm(name string, at time.Time) (result gofakes3.ObjectDeleteResu
 		return result, nil
 	}
 
+	hasVersions := (object.versions != nil && object.versions.Len() > 0) ||
+		(object.data != nil && !object.data.nullVersion)
+
 	if b.versioning == gofakes3.VersioningEnabled {
 		item := &bucketData{lastModified: at, name: name, deleteMarker: true}
 		b.put(name, item)
 		result.IsDeleteMarker = true
 		result.VersionID = item.versionID
 
+	} else if b.versioning == gofakes3.VersioningSuspended && hasVersions {
+		// Versions created while versioning was enabled survive; the null
+		// version, if any, is replaced by a null delete marker:
+		item := &bucketData{lastModified: at, name: name, deleteMarker: true}
+		b.put(name, item)
+		result.IsDeleteMarker = true
+
 	} else {
-		object.data = nil
-		if object.versions == nil || object.versions.Len() == 0 {
-			b.objects.Delete(name)
-		}
+		b.objects.Delete(name)
 	}
 
 	return result, nil
